@@ -1,0 +1,153 @@
+//! Verification hooks (only compiled with the `verif-hooks` feature).
+//!
+//! H1: a seam that lets an external deterministic simulator own the decision
+//! "collect now?" that [`Program::maybe_gc`] normally takes with its heap-size
+//! heuristic, plus read-only counters. With no decider installed the shipped
+//! heuristic runs unchanged.
+
+use super::Program;
+
+/// What the evaluator looked like at the point `maybe_gc` was called.
+#[derive(Clone, Debug, Default)]
+pub struct GcPoint {
+    /// Ordinal of this `maybe_gc` call since the program was created.
+    pub ordinal: u64,
+    /// Number of objects currently in the heap.
+    pub num_objects: usize,
+    /// Number of objects right after the last collection.
+    pub objs_after_last_gc: usize,
+    /// Hash of the discriminant of the evaluator state that has just been
+    /// executed (0 when `maybe_gc` was not called from the evaluator loop).
+    pub state_kind: u64,
+    /// Lengths of the evaluator stacks: state, value, bool, string, array,
+    /// object, comp_spec, cmp_ord, byte_array.
+    pub stacks: [usize; 9],
+    /// Current stack trace length of the evaluator.
+    pub trace_len: usize,
+}
+
+#[derive(Copy, Clone, Debug, PartialEq, Eq)]
+pub enum GcAction {
+    /// Collect now.
+    Collect,
+    /// Do not collect.
+    Skip,
+    /// Let the shipped heuristic decide.
+    Heuristic,
+}
+
+#[derive(Copy, Clone, Debug)]
+pub struct GcDecision {
+    pub action: GcAction,
+    /// Run the handle-conservation audit (H3) before acting.
+    pub audit: bool,
+}
+
+/// Result of one handle-conservation audit (H3).
+#[derive(Copy, Clone, Debug, PartialEq, Eq)]
+pub struct AuditRecord {
+    pub ordinal: u64,
+    pub objects: usize,
+    pub over: usize,
+    pub under: usize,
+    pub stale: usize,
+}
+
+pub type GcDecider = Box<dyn FnMut(&GcPoint) -> GcDecision>;
+
+#[derive(Default)]
+pub(super) struct VerifState {
+    pub(super) decider: Option<GcDecider>,
+    pub(super) maybe_gc_calls: u64,
+    pub(super) gc_runs: u64,
+    pub(super) heuristic_gc_runs: u64,
+    pub(super) last_state_kind: u64,
+    pub(super) last_stacks: [usize; 9],
+    pub(super) last_trace_len: usize,
+    pub(super) audits: Vec<AuditRecord>,
+}
+
+impl<'p> Program<'p> {
+    /// Installs (or removes) the collection decider.
+    pub fn verif_set_gc_decider(&mut self, decider: Option<GcDecider>) {
+        self.verif.decider = decider;
+    }
+
+    /// Number of objects in the heap.
+    pub fn verif_num_objects(&self) -> usize {
+        self.gc_ctx.num_objects()
+    }
+
+    /// Number of collections run so far (any trigger).
+    pub fn verif_gc_runs(&self) -> u64 {
+        self.verif.gc_runs
+    }
+
+    /// Number of collections triggered by the shipped heuristic.
+    pub fn verif_heuristic_gc_runs(&self) -> u64 {
+        self.verif.heuristic_gc_runs
+    }
+
+    /// Number of `maybe_gc` calls so far (one per evaluator step).
+    pub fn verif_steps(&self) -> u64 {
+        self.verif.maybe_gc_calls
+    }
+
+    /// Runs the handle-conservation audit (H3): `(objects, over, under, stale)`.
+    pub fn verif_audit(&self) -> (usize, usize, usize, usize) {
+        self.gc_ctx.verif_audit()
+    }
+
+    /// Takes the audit records accumulated by decider-requested audits.
+    pub fn verif_take_audits(&mut self) -> Vec<AuditRecord> {
+        std::mem::take(&mut self.verif.audits)
+    }
+
+    pub(super) fn verif_note_state(&mut self, kind: u64, stacks: [usize; 9], trace_len: usize) {
+        self.verif.last_state_kind = kind;
+        self.verif.last_stacks = stacks;
+        self.verif.last_trace_len = trace_len;
+    }
+
+    /// Called at the top of `maybe_gc`. Returns `true` when the decision has
+    /// been taken here (the heuristic must then be skipped).
+    pub(super) fn verif_maybe_gc(&mut self) -> bool {
+        let ordinal = self.verif.maybe_gc_calls;
+        self.verif.maybe_gc_calls += 1;
+        let Some(mut decider) = self.verif.decider.take() else {
+            return false;
+        };
+        let point = GcPoint {
+            ordinal,
+            num_objects: self.gc_ctx.num_objects(),
+            objs_after_last_gc: self.objs_after_last_gc,
+            state_kind: self.verif.last_state_kind,
+            stacks: self.verif.last_stacks,
+            trace_len: self.verif.last_trace_len,
+        };
+        let decision = decider(&point);
+        self.verif.decider = Some(decider);
+        // the recorded state belongs to one step only
+        self.verif.last_state_kind = 0;
+        self.verif.last_stacks = [0; 9];
+        self.verif.last_trace_len = 0;
+        if decision.audit {
+            let (objects, over, under, stale) = self.gc_ctx.verif_audit();
+            self.verif.audits.push(AuditRecord {
+                ordinal,
+                objects,
+                over,
+                under,
+                stale,
+            });
+        }
+        match decision.action {
+            GcAction::Collect => {
+                self.gc();
+                true
+            }
+            GcAction::Skip => true,
+            GcAction::Heuristic => false,
+        }
+    }
+}
